@@ -297,6 +297,7 @@ func (c *UDPConn) Deliver(from string, payload []byte) {
 type TCPConn struct {
 	local, remote *TCPAddr
 	Written       [][]byte
+	WriteCalls    int // every Write call, failed ones included
 	FailWrites    int // the next FailWrites writes fail
 	WriteFault    func(c *TCPConn, b []byte) bool
 	closed        bool
@@ -330,6 +331,9 @@ func (c *TCPConn) Close() error {
 	return nil
 }
 func (c *TCPConn) Write(b []byte) (int, error) {
+	mu.Lock()
+	c.WriteCalls++
+	mu.Unlock()
 	if c.closed {
 		return 0, errors.New("use of closed network connection")
 	}
